@@ -308,6 +308,9 @@ R_Forward(id) ==
 \* ("fail"), never fatal.
 Die(p) == [p EXCEPT !.st = "dead"]
 FailFet == fet' = Die(fet) /\ failed' = TRUE /\ aux' = [aux EXCEPT !.apifail = TRUE] /\ UNCHANGED <<pol, han, reo>>
+\* The property does not demand that the fetcher give up: an implementation may also log the error and ask again from
+\* where it is (same cursor, pages read so far kept) - nothing is lost or handed over twice that way.
+FetSurvives == UNCHANGED <<fet, failed, pol, han, reo>> /\ aux' = [aux EXCEPT !.apifail = TRUE]
 FailPol == pol' = Die(pol) /\ failed' = TRUE /\ aux' = [aux EXCEPT !.apifail = TRUE] /\ UNCHANGED <<fet, han, reo>>
 FailHan == han' = Die(han) /\ failed' = TRUE /\ aux' = [aux EXCEPT !.apifail = TRUE] /\ UNCHANGED <<fet, pol, reo>>
 FailReo == reo' = ReoInit /\ UNCHANGED <<failed, aux, fet, pol, han>>
@@ -315,8 +318,8 @@ FailReo == reo' = ReoInit /\ UNCHANGED <<failed, aux, fet, pol, han>>
 Fail(route) ==
     /\ CASE route = "version" -> run = "ver" /\ failed' = TRUE /\ aux' = [aux EXCEPT !.apifail = TRUE] /\ UNCHANGED <<fet, pol, han, reo>>
          [] route = "clique"  -> run = "clique" /\ failed' = TRUE /\ aux' = [aux EXCEPT !.apifail = TRUE] /\ UNCHANGED <<fet, pol, han, reo>>
-         [] route = "count"   -> fet.st \in {"init", "idle"} /\ FailFet
-         [] route = "page"    -> (fet.st = "paging" \/ (fet.st = "deliver" /\ fet.lastN > 0)) /\ fet.q = <<>> /\ FailFet
+         [] route = "count"   -> fet.st \in {"init", "idle"} /\ (FailFet \/ (fet.st = "idle" /\ FetSurvives))
+         [] route = "page"    -> (fet.st = "paging" \/ (fet.st = "deliver" /\ fet.lastN > 0)) /\ fet.q = <<>> /\ (FailFet \/ FetSurvives)
          [] route = "chain-info" -> \/ pol.st = "idle" /\ FailPol
                                     \/ reo.st = "main" /\ FailReo
          [] route = "is-main" -> \/ han.st = "round" /\ han.cur = Nil /\ FailHan
